@@ -268,6 +268,11 @@ def judge_nested(case: dict[str, Any]) -> Judgement:
     def inner_fn(plan: Plan, variables: np.ndarray) -> Any:
         plan.set(inner_tracker, "results", None)
         deliveries.append(("start", np.array(variables), len(events)))
+        # every invocation of the inner optimization visits other points, so the values it delivers for the outer
+        # step's fixed variables change from one outer request to the next
+        shift = 0.125 * (len(deliveries) // 2)
+        shifted = [[[p + shift for p in pts], f, g] for pts, f, g in inner_script]
+        inner_cfg["optimizer"]["options"] = {"script": shifted}
         plan.run_step(inner_step, config=inner_cfg, variables=variables)
         result = plan.get(inner_tracker, "results")
         deliveries.append(("end", None if result is None else np.array(result.evaluations.variables), len(events)))
